@@ -8,7 +8,6 @@ import (
 	"errors"
 	"fmt"
 	"hash/fnv"
-	"io"
 	"math/rand"
 	"reflect"
 	"sort"
@@ -331,8 +330,6 @@ func gunzipBytes(b []byte) ([]byte, error) {
 	}
 	return out.Bytes(), nil
 }
-
-var _ = io.EOF
 
 // ---- value generation -------------------------------------------------------------------------------------
 
